@@ -88,9 +88,12 @@ Proof.
     assert (H3 : inp s3 = inp s0 /\ refused s3 = refused s0 /\ trace s3 = trace s0).
     { destruct (mem d (solving s0)); [inversion Es3; subst; auto|].
       match type of Es3 with match ?r1 with _ => _ end = _ => destruct r1 as [s1|e] eqn:Es1; [|discriminate] end.
-      destruct (mem d (fmap s1)); [|discriminate]. inversion Es3; subst s3; clear Es3. unfold add_unattempted. cbn.
-      destruct (mem d (fmap s0)); [inversion Es1; subst; auto|].
-      destruct (add_form_spec C rank ans _ _ _ _ Es1) as (fi & _ & A1 & _ & _ & _ & _ & A2 & A3 & _). auto. }
+      destruct (mem d (fmap s1)); [|discriminate].
+      assert (H1 : inp s1 = inp s0 /\ refused s1 = refused s0 /\ trace s1 = trace s0).
+      { destruct (mem d (fmap s0)); [inversion Es1; subst; auto|].
+        destruct (add_form_spec C rank ans _ _ _ _ Es1) as (fi & _ & A1 & _ & _ & _ & _ & A2 & A3 & _). auto. }
+      destruct (mem d (solving s1)); inversion Es3; subst s3; clear Es3; [exact H1|].
+      unfold add_unattempted. cbn. exact H1. }
     destruct H3 as (A1 & A2 & A3). rewrite A1, A2, A3, Hi0, Hr0, Ht0. repeat split; eauto.
   - destruct (add_form C rank (c_form_of_input C i) true s0) as [s1|e] eqn:Es1; [|discriminate].
     destruct (mem i (specs s1)); [|discriminate].
